@@ -665,7 +665,34 @@ def match_known(pid, cfg, orec, known):
 # ----------------------------------------------------------------------------------------
 def _worker(args):
     pid, cfg, tier, seed = args
-    return run_config_symbolic(pid, cfg, tier, seed)
+    cov = os.environ.get('VT_COVER')
+    if not cov:
+        return run_config_symbolic(pid, cfg, tier, seed)
+    # development aid: which flowdyn lines were executed symbolically by this configuration (tools/cover_report.py)
+    from . import loader
+    root = os.path.join(loader.REPO, 'flowdyn')
+    seen = set()
+
+    def local(frame, event, arg):
+        if event == 'line':
+            seen.add((frame.f_code.co_filename, frame.f_lineno))
+        return local
+
+    def tracer(frame, event, arg):
+        if frame.f_code.co_filename.startswith(root):
+            seen.add((frame.f_code.co_filename, frame.f_lineno))
+            return local
+        return None
+    sys.settrace(tracer)
+    try:
+        return run_config_symbolic(pid, cfg, tier, seed)
+    finally:
+        sys.settrace(None)
+        os.makedirs(cov, exist_ok=True)
+        import hashlib
+        h = hashlib.sha1(cfg_key(cfg).encode()).hexdigest()[:12]
+        with open(os.path.join(cov, '%s-%s.json' % (pid, h)), 'w') as f:
+            json.dump(sorted([os.path.relpath(a, loader.REPO), b] for a, b in seen), f)
 
 
 def _child(conn, args):
